@@ -73,6 +73,8 @@ func FaultMenu(w *txnh.World, e *sched.Event, withSplit bool) []sched.Dev {
 		{Name: "drop-resp", Kind: txnh.DevDropResp},
 		{Name: "down-req", Kind: txnh.DevDownReq},
 		{Name: "down-resp", Kind: txnh.DevDownResp},
+		{Name: "drop-resp-deadline", Kind: txnh.DevDropResp, Arg: "deadline"},
+		{Name: "down-resp-deadline", Kind: txnh.DevDownResp, Arg: "deadline"},
 		{Name: "not-leader", Kind: txnh.DevRegionErr, Arg: &errorpb.Error{Message: "injected", NotLeader: &errorpb.NotLeader{RegionId: req.Context.GetRegionId()}}},
 		{Name: "epoch-not-match", Kind: txnh.DevRegionErr, Arg: &errorpb.Error{Message: "injected", EpochNotMatch: &errorpb.EpochNotMatch{}}},
 		{Name: "server-busy", Kind: txnh.DevRegionErr, Arg: &errorpb.Error{Message: "injected", ServerIsBusy: &errorpb.ServerIsBusy{Reason: "injected"}}},
